@@ -63,6 +63,8 @@ type CallerSpec struct {
 	StartUs   int64 `json:"su"` // start delay
 	SlowMs    int   `json:"sl"` // the server holds the response of this request for so long
 	Async     bool  `json:"as"` // use SendRequestAsync (no timer of its own: bounded by the context only)
+	CbMs      int   `json:"cb"`  // an async callback keeps the shared run loop busy for so long
+	Key       int   `json:"key"` // Kind 4 (ResolveLock through reqCollapse): collapse key
 	Pool      int   `json:"pl"` // which store (connection pool) the call goes to
 	Long      bool  `json:"lg"` // "no deadline": sync calls get a 30 s time-out, async calls a context without deadline;
 	// such a call must complete in the scenario's drain phase (finite watchdog)
@@ -94,6 +96,9 @@ type Scenario struct {
 	Unknown   float64      `json:"unknown"`
 	Blackhole float64      `json:"blackhole"`
 	Pools     int          `json:"pools"`   // number of stores (each its own server, address and connection pool); 0 = 1
+	RunLoop   bool         `json:"runloop"`  // all async callbacks of the scenario share ONE async.RunLoop driven by one goroutine
+	Collapse  bool         `json:"collapse"` // calls go through NewReqCollapse(NewInterceptedClient(rpc)), like tikv/kv.go
+	HoldMs    int          `json:"holdms"`   // the server holds every ResolveLock request for so long
 	NoBatch   bool         `json:"nobatch"` // MaxBatchSize = 0: the non-batch path (one unary call per request)
 }
 
@@ -172,6 +177,10 @@ func echo(r *tikvpb.BatchCommandsRequest_Request) *tikvpb.BatchCommandsResponse_
 		return &tikvpb.BatchCommandsResponse_Response{Cmd: &tikvpb.BatchCommandsResponse_Response_Get{Get: &kvrpcpb.GetResponse{Value: c.Get.Key}}}
 	case *tikvpb.BatchCommandsRequest_Request_Empty:
 		return &tikvpb.BatchCommandsResponse_Response{Cmd: &tikvpb.BatchCommandsResponse_Response_Empty{Empty: &tikvpb.BatchCommandsEmptyResponse{TestId: c.Empty.TestId}}}
+	case *tikvpb.BatchCommandsRequest_Request_ResolveLock:
+		// no payload field in the response: the start version travels back in the (otherwise unused) Abort text
+		return &tikvpb.BatchCommandsResponse_Response{Cmd: &tikvpb.BatchCommandsResponse_Response_ResolveLock{ResolveLock: &kvrpcpb.ResolveLockResponse{
+			Error: &kvrpcpb.KeyError{Abort: fmt.Sprintf("c%d", c.ResolveLock.GetStartVersion())}}}}
 	case *tikvpb.BatchCommandsRequest_Request_Coprocessor:
 		return &tikvpb.BatchCommandsResponse_Response{Cmd: &tikvpb.BatchCommandsResponse_Response_Coprocessor{Coprocessor: &coprocessor.Response{Data: append([]byte(nil), c.Coprocessor.Data...)}}}
 	}
@@ -188,6 +197,8 @@ func respPayload(r *tikvpb.BatchCommandsResponse_Response) int64 {
 		return int64(c.Empty.GetTestId())
 	case *tikvpb.BatchCommandsResponse_Response_Coprocessor:
 		return parsePay([]byte(c.Coprocessor.Data))
+	case *tikvpb.BatchCommandsResponse_Response_ResolveLock:
+		return parsePay([]byte(c.ResolveLock.GetError().GetAbort()))
 	}
 	return -2
 }
@@ -291,6 +302,9 @@ func (s *server) BatchCommands(ss tikvpb.Tikv_BatchCommandsServer) error {
 				slow := 0
 				if c := reqPayload(req.Requests[i]); c >= 0 && int(c) < len(s.sc.Callers) {
 					slow = s.sc.Callers[c].SlowMs
+				}
+				if _, ok := req.Requests[i].GetCmd().(*tikvpb.BatchCommandsRequest_Request_ResolveLock); ok {
+					slow = s.sc.HoldMs
 				}
 				if slow > 0 && !s.drain.Load() {
 					st.held = append(st.held, heldItem{it, time.Now().Add(time.Duration(slow) * time.Millisecond)})
@@ -750,6 +764,10 @@ func mkReq(c int, cs CallerSpec) *tikvrpc.Request {
 		req = tikvrpc.NewRequest(tikvrpc.CmdEmpty, &tikvpb.BatchCommandsEmptyRequest{TestId: uint64(c)})
 	case 3:
 		req = tikvrpc.NewRequest(tikvrpc.CmdCop, &coprocessor.Request{Data: pay})
+	case 4:
+		// full-region ResolveLock (no keys, no txn infos): what reqCollapse collapses by (region, start version, async)
+		req = tikvrpc.NewRequest(tikvrpc.CmdResolveLock, &kvrpcpb.ResolveLockRequest{StartVersion: uint64(cs.Key), CommitVersion: uint64(cs.Key) + 1})
+		req.Context.RegionId = 7
 	default:
 		req = tikvrpc.NewRequest(tikvrpc.CmdRawGet, &kvrpcpb.RawGetRequest{Key: pay})
 	}
@@ -774,11 +792,13 @@ func respPay(resp *tikvrpc.Response) (int64, string) {
 		return int64(r.GetTestId()), "empty"
 	case *coprocessor.Response:
 		return parsePay([]byte(r.Data)), "cop"
+	case *kvrpcpb.ResolveLockResponse:
+		return parsePay([]byte(r.GetError().GetAbort())), "resolvelock"
 	}
 	return -2, fmt.Sprintf("%T", resp.Resp)
 }
 
-var kindNames = []string{"rawget", "get", "empty", "cop"}
+var kindNames = []string{"rawget", "get", "empty", "cop", "resolvelock"}
 
 var injectedPanics, injectedRecvPanics atomic.Int64
 
@@ -887,6 +907,24 @@ func runScenario(sc *Scenario) {
 		inj.rpc = rpc
 	}
 	defer rpc.Close()
+	var cl client.Client = rpc
+	if sc.Collapse {
+		cl = client.NewReqCollapse(client.NewInterceptedClient(rpc)) // the stack tikv/kv.go puts on top of the batched client
+	}
+	var loop *async.RunLoop
+	if sc.RunLoop {
+		// one run loop for all asynchronous calls of the scenario, driven by one goroutine (like a txn's run loop)
+		loop = async.NewRunLoop()
+		lctx, lcancel := context.WithCancel(context.Background())
+		loopDone := make(chan struct{})
+		go func() {
+			defer close(loopDone)
+			for lctx.Err() == nil {
+				loop.Exec(lctx)
+			}
+		}()
+		defer func() { lcancel(); <-loopDone }()
+	}
 	p0recv, p0send := counterVal(metrics.LabelBatchRecvLoop), counterVal(metrics.LabelBatchSendLoop)
 	sp0 := atomic.LoadInt64(&client.BatchSendLoopPanicCounter)
 	inj0 := injectedPanics.Load()
@@ -944,7 +982,14 @@ func runScenario(sc *Scenario) {
 			if cs.Long {
 				mode += "-long"
 			}
-			evs(int64(sc.ID), "SUB\t%d\t%d\t%d\t%s\t%d\t%s\t%d", c, cs.Host, cs.Pri, kindNames[cs.Kind%4], cs.TimeoutMs, mode, cs.Pool%npools)
+			exp, willCancel := int64(c), 0
+			if cs.Kind == 4 {
+				exp = int64(cs.Key) // a collapsed ResolveLock shares the response of its key
+			}
+			if cs.CancelUs >= 0 {
+				willCancel = 1
+			}
+			evs(int64(sc.ID), "SUB\t%d\t%d\t%d\t%s\t%d\t%s\t%d\t%d\t%d", c, cs.Host, cs.Pri, kindNames[cs.Kind%5], cs.TimeoutMs, mode, cs.Pool%npools, exp, willCancel)
 			st := time.Now()
 			var resp *tikvrpc.Response
 			var err error
@@ -956,7 +1001,7 @@ func runScenario(sc *Scenario) {
 					}
 				}()
 				if !cs.Async {
-					resp, err = rpc.SendRequest(ctx, addr, req, timeout)
+					resp, err = cl.SendRequest(ctx, addr, req, timeout)
 					return
 				}
 				// asynchronous API: the call is over when the callback ran; a second invocation is a second return
@@ -972,14 +1017,21 @@ func runScenario(sc *Scenario) {
 				}
 				ch := make(chan res, 4)
 				var calls atomic.Int32
-				cb := async.NewCallback(goExecutor{}, func(r *tikvrpc.Response, e error) {
+				var ex async.Executor = goExecutor{}
+				if loop != nil {
+					ex = loop
+				}
+				cb := async.NewCallback(ex, func(r *tikvrpc.Response, e error) {
 					if calls.Add(1) > 1 {
 						evs(int64(sc.ID), "RET\t%d\tfail:second-callback\t-1\t0\t0\t-", c)
 						return
 					}
 					ch <- res{r, e}
+					if cs.CbMs > 0 {
+						time.Sleep(time.Duration(cs.CbMs) * time.Millisecond) // the run loop stays in this round meanwhile
+					}
 				})
-				rpc.SendRequestAsync(actx, addr, req, cb)
+				cl.SendRequestAsync(actx, addr, req, cb)
 				got := <-ch
 				resp, err = got.r, got.e
 			}()
@@ -994,7 +1046,7 @@ func runScenario(sc *Scenario) {
 			} else {
 				p, ty := respPay(resp)
 				cls := "ok"
-				if ty != kindNames[cs.Kind%4] {
+				if ty != kindNames[cs.Kind%5] {
 					cls = "ok-wrongtype:" + ty
 				}
 				evs(int64(sc.ID), "RET\t%d\t%s\t%d\t%d\t%d\t-", c, cls, p, late, el.Milliseconds())
@@ -1198,6 +1250,118 @@ func firstN(s string, n int) string {
 	return s
 }
 
+// ---------------------------------------------------------------- direct differential on util/async.RunLoop
+// Random scripts: callbacks 0..n-1, some appended up front, the others appended by a running callback (re-entrant Append,
+// one call or several) -- mode "seq" (one goroutine: the execution order is determined) -- or, mode "conc", additionally by
+// a second goroutine while Exec is running.  Line: RL <mode> <init> <spawn t:a,b|..> <observed order>.
+func runLoopDifferential(r *rand.Rand, n int) {
+	for k := 0; k < n; k++ {
+		mode := "seq"
+		if k%3 == 2 {
+			mode = "conc"
+		}
+		total := 3 + r.Intn(20)
+		ninit := 1 + r.Intn(minInt(total, 6))
+		spawn := map[int][]int{}
+		next := ninit
+		for t := 0; t < next && next < total; t++ { // t < next: only callbacks that exist spawn others
+			m := r.Intn(4)
+			for j := 0; j < m && next < total; j++ {
+				spawn[t] = append(spawn[t], next)
+				next++
+			}
+		}
+		for next < total { // whoever is left is spawned by the last callback that spawns anything (or callback 0)
+			spawn[0] = append(spawn[0], next)
+			next++
+		}
+		extra := 0
+		if mode == "conc" {
+			extra = 1 + r.Intn(6)
+		}
+		loop := async.NewRunLoop()
+		var mu sync.Mutex
+		var order []int
+		var mk func(t int) func()
+		oneByOne := r.Intn(2) == 0
+		mk = func(t int) func() {
+			return func() {
+				mu.Lock()
+				order = append(order, t)
+				mu.Unlock()
+				if mode == "conc" {
+					time.Sleep(time.Duration(r.Intn(150)) * time.Microsecond)
+				}
+				var fs []func()
+				for _, c := range spawn[t] {
+					fs = append(fs, mk(c))
+				}
+				if oneByOne {
+					for _, f := range fs {
+						loop.Append(f)
+					}
+				} else {
+					loop.Append(fs...)
+				}
+			}
+		}
+		var init []func()
+		for t := 0; t < ninit; t++ {
+			init = append(init, mk(t))
+		}
+		loop.Append(init...)
+		ctx, cancel := context.WithTimeout(context.Background(), 2*time.Second)
+		var wg sync.WaitGroup
+		if extra > 0 {
+			wg.Add(1)
+			go func() {
+				defer wg.Done()
+				for j := 0; j < extra; j++ {
+					time.Sleep(time.Duration(50+j*40) * time.Microsecond)
+					loop.Append(mk(1000 + j))
+				}
+			}()
+		}
+		done := func() bool { mu.Lock(); defer mu.Unlock(); return len(order) >= total+extra }
+		for !done() && ctx.Err() == nil {
+			loop.Exec(ctx)
+		}
+		cancel()
+		wg.Wait()
+		var ib, sb, ob strings.Builder
+		for t := 0; t < ninit; t++ {
+			fmt.Fprintf(&ib, "%d,", t)
+		}
+		keys := make([]int, 0, len(spawn))
+		for t := range spawn {
+			keys = append(keys, t)
+		}
+		sort.Ints(keys)
+		for _, t := range keys {
+			fmt.Fprintf(&sb, "%d:", t)
+			for _, c := range spawn[t] {
+				fmt.Fprintf(&sb, "%d,", c)
+			}
+			sb.WriteByte('|')
+		}
+		mu.Lock()
+		for _, t := range order {
+			fmt.Fprintf(&ob, "%d,", t)
+		}
+		mu.Unlock()
+		outMu.Lock()
+		fmt.Fprintf(out, "RL\t%s\t%s\t%s\t%d\t%s\n", mode, ib.String(), sb.String(), extra, ob.String())
+		outMu.Unlock()
+	}
+}
+
+func minInt(a, b int) int {
+	if a < b {
+		return a
+	}
+	return b
+}
+
 // ---------------------------------------------------------------- scenario generation
 
 func genScenario(r *rand.Rand, id int, class string) *Scenario {
@@ -1386,6 +1550,43 @@ func genScenario(r *rand.Rand, id int, class string) *Scenario {
 				sc.Callers = append(sc.Callers, cs)
 			}
 		}
+	case "runloop": // several SendRequestAsync calls whose callbacks run on ONE shared async.RunLoop; the responses arrive 1 ms
+		// apart while a callback keeps the loop in its round for a few ms, so callbacks are appended to the loop while a
+		// round with several queued callbacks is executing; every callback must run exactly once
+		sc.NHosts = 1 + r.Intn(2)
+		sc.RunLoop = true
+		sc.DelayUs, sc.Reorder = 100, 0
+		k := 8 + r.Intn(10)
+		for i := 0; i < k; i++ {
+			sc.Callers = append(sc.Callers, CallerSpec{Host: r.Intn(sc.NHosts), Kind: r.Intn(4), TimeoutMs: normalTo, CancelUs: -1, StartUs: r.Int63n(2000),
+				SlowMs: 15 + i + r.Intn(2), Async: true, Long: r.Intn(4) != 0, CbMs: 2 + r.Intn(4)})
+		}
+	case "collapse": // ResolveLock through the wrapper stack of tikv/kv.go: callers with the same (region, start version) share one
+		// flight; the caller that started it is often cancelled / times out while the server still holds the request: every
+		// other caller must get the shared response, not the leader's error; different keys are never collapsed
+		sc.NHosts = 1
+		sc.Collapse = true
+		sc.HoldMs = 30 + r.Intn(30)
+		sc.DelayUs, sc.Reorder = 200, 0
+		nkeys := 1 + r.Intn(3)
+		for kx := 0; kx < nkeys; kx++ {
+			key := 100*(id%90) + 10*(kx+1) // unique per scenario: the singleflight group is a package global
+			m := 2 + r.Intn(3)
+			for i := 0; i < m; i++ {
+				cs := CallerSpec{Kind: 4, Key: key, TimeoutMs: normalTo, CancelUs: -1, StartUs: int64(i)*1500 + r.Int63n(500), Async: r.Intn(3) == 0}
+				if i == 0 { // the caller that starts the shared request
+					switch r.Intn(3) {
+					case 0:
+						cs.CancelUs = 5000 + r.Int63n(10000)
+					case 1:
+						cs.TimeoutMs = 8 + r.Intn(10)
+					}
+				} else if r.Intn(5) == 0 {
+					cs.CancelUs = 6000 + r.Int63n(10000)
+				}
+				sc.Callers = append(sc.Callers, cs)
+			}
+		}
 	case "limitstarve": // regression class for fix 7ad2a8a: a finite limit, one wave built at once, NO further traffic: the
 		// requests left in the builder must be sent as soon as capacity is released (retry timer), not only when another
 		// request happens to arrive
@@ -1567,7 +1768,7 @@ func main() {
 	tier := os.Getenv("VERIF_TIER")
 	r := rand.New(rand.NewSource(seed*7919 + 17))
 	classes := []string{"plain", "forward", "streamfail", "cancel", "close", "staleepoch", "multiconn", "rebreak", "sendpanic", "staleasync",
-		"builder", "recvpanic", "failpanic", "twopools", "nonbatch", "asyncclose", "limitbatch", "limitstarve"}
+		"builder", "recvpanic", "failpanic", "twopools", "nonbatch", "asyncclose", "limitbatch", "limitstarve", "runloop", "collapse"}
 	rounds := 8
 	if tier == "thorough" {
 		rounds = 100
@@ -1576,6 +1777,13 @@ func main() {
 		rounds = v
 	}
 	only := os.Getenv("VERIF_CLASS")
+	if only == "" || only == "rl" {
+		nrl := 150
+		if tier == "thorough" {
+			nrl = 3000
+		}
+		runLoopDifferential(r, nrl)
+	}
 	id := 0
 	// directed regression scenarios (JSON specs kept in the repository of the checks, /verif/corpus/C18/*.json)
 	if dir := os.Getenv("VERIF_C18_CORPUS"); dir != "" && (only == "" || only == "corpus") {
